@@ -345,7 +345,7 @@ def main(sys_args=None):
                 time_point_str = args.items[0]
             out = date_time_oper.process_time_point_str(
                 time_point_str, args.offsets1, args.print_format)
-    except ValueError as exc:
+    except (ValueError, OverflowError) as exc:
         sys.exit(exc)
     else:
         print(out)
